@@ -36,7 +36,7 @@ type AggRes struct {
 	Buckets   map[BucketKey]*Bucket
 	NotExists int64
 	// PerBucketNotExists: whether per-bucket not-exists counts are defined for this spec
-	// (they are for: stat without group (per time bin); stat with group without interval)
+	// (for every statistic function: per time bin, per group, and per group and time bin)
 	PerBucketNotExists bool
 }
 
@@ -89,7 +89,7 @@ func Agg(matching []*Doc, s AggSpec) (AggRes, error) {
 		}
 		return res, nil
 	}
-	res.PerBucketNotExists = s.GroupBy == "" || s.Interval <= 0
+	res.PerBucketNotExists = true
 	for _, d := range matching {
 		raw, hasV := tokenOf(d, s.Field)
 		var v float64
@@ -115,9 +115,7 @@ func Agg(matching []*Doc, s AggSpec) (AggRes, error) {
 		case !hasG:
 			res.NotExists++
 		case !hasV:
-			if s.Interval <= 0 {
-				get(BucketKey{g, 0}).NotExists++
-			}
+			get(BucketKey{g, bin(d)}).NotExists++
 		default:
 			k := BucketKey{g, bin(d)}
 			get(k)
